@@ -202,6 +202,12 @@ func (w *W) c11Program(k int, emit func(blob, dump []byte)) {
 		}
 	}
 	dsts := []*simdjson.ParsedJson{nil, {}, {}}
+	if k%2 == 1 {
+		// a destination that is a parsed document (copy mode: non-empty Strings.B, a Message, a tape)
+		if p, err := simdjson.Parse([]byte(`{"parsed":"destination","with":["some","strings",1,2.5]}`), nil); err == nil {
+			dsts = append(dsts, p.Clone(nil))
+		}
+	}
 	var trace []string
 	steps := 6 + r.Intn(10)
 	nontrivial := false
